@@ -248,7 +248,24 @@ func c30RunSystem(c verifc30.Case) (verifkit.Outcome, error) {
 			}
 			fields := verifc30.DeepCopy(op.Fields).(map[string]interface{})
 			before := c30Bags(st, accID)
-			err := registrystate.SetViaView(st, accID, regName, "v", fields)
+			spins := false
+			if op.Reg == 0 {
+				for field, val := range op.Fields {
+					if m.SetSpins(field, val) {
+						spins = true
+					}
+				}
+			}
+			var err error
+			if spins {
+				var verdict error
+				err, verdict = verifc30.Guarded(when, func() error { return registrystate.SetViaView(st, accID, regName, "v", fields) })
+				if verdict != nil {
+					return fail(verdict)
+				}
+			} else {
+				err = registrystate.SetViaView(st, accID, regName, "v", fields)
+			}
 			after := c30Bags(st, accID)
 			for name, b := range before {
 				if name == regName {
